@@ -1,5 +1,5 @@
 """C15 - the DictList operations NAMED in the property that had no contract: query, pickling (__reduce__, __getstate__, the
-round-trip lemma), __setslice__, list_attr, __dir__  (hook table HOOKS; keys KEYS; lemmas()).
+round-trip lemma), slice assignment (__setitem__ with a simple slice, __setslice__), list_attr, __dir__  (hook table HOOKS; keys KEYS; lemmas()).
 
 All for a DictList of ANY length over the real source of /repo/src/cobra/core/dictlist.py.
 
@@ -35,9 +35,20 @@ DictList.__getstate__: a NEW dictionary with the single entry "_dict" -> the ind
   lemmas fail: `lemmas(_drop_copy=True)`).
 DictList.__dir__: the new list dir(DictList) (ASSUMED: a new list of strings) + "_dict" + every identifier of the index, each at a
   definite position (ghost enumeration of the dictionary); nothing written.
-NOT under contract: __setslice__ (with __getslice__ / __delslice__, which ARE proved in c15_dictlist, a Python 2 relic: natively under
-  Python 3.12 slicing syntax never calls any of the three - DEAD CODE unless called explicitly; it forwards to
-  __setitem__(slice(i, j), y), whose slice branch has no contract (placeholder None values in the index inside try / finally): not cheap).
+DictList.__setitem__(i, y) for a SIMPLE SLICE i (step None) and a list y that is not self - second contract, key
+  "DictList.__setitem__@slice" (the int cases are in c15_dictlist) - any bounds (negative, beyond the end, stop below start):
+    slice_new_unique_ids   the items carry pairwise different identifiers none of which is in the index: WF again and the new sequence
+                           is self[:lo] + y + self[max(hi, lo):]  (lo, hi the clipped bounds)
+    slice_duplicate_id     otherwise (an identifier twice in y, or present in self - ALSO that of an element the slice would have
+                           replaced: `dl[0:1] = [Object(dl[0].id)]` raises, unlike the int form): ValueError, list and index unchanged
+                           (the index object is rebuilt by the `finally`, with equal content)
+  loop invariant over the placeholder loop (index = old keys + ids of the first t items, those pairwise different and new); `_check`
+  and `_generate_index` by their proved contracts; `self._dict[id] = None` as `key present, value unspecified` (setitem hook);
+  ASSUMED: `list.__setitem__(self, slice, y)` = the splice axiom `_splice` (cross-checked against CPython on 6144 (list, bounds,
+  items) combinations: no mismatch); a call-site lemma (obliged) states that the new list's identifiers are pairwise different.
+DictList.__setslice__(i, j, y): the same two cases for slice(i, j), by the slice contract above.  With __getslice__ / __delslice__
+  (proved in c15_dictlist) a Python 2 relic: natively under Python 3.12 slicing syntax never calls any of the three - DEAD CODE unless
+  called explicitly.
 
 INHERITED list methods DictList does NOT override (set(dir(list)) - set(DictList.__dict__), CPython 3.12) - OUTSIDE the claim:
   mutators that DESYNCHRONISE the index (native reproduction, dl = DictList(Object(i) for i in "abc")):
@@ -63,6 +74,11 @@ Mutation trials (tools/mutate_and_run.sh cobra/core/dictlist.py ... contracts.c1
   list_attr `for i in self` -> `for i in self._dict`                                      unexpected AttributeError + post (sat)
   list_attr `getattr(i, attribute)` -> `getattr(i, "id")`;  `... for i in self if i.id != attribute`     post (sat), both
   __dir__ without `attributes.append("_dict")`;  append and extend swapped                post.1-3 resp. post.2 / post.3 (sat)
+  __setitem__@slice without `self._dict[obj.id] = None`                                   loop#0/inv-preserve.2 (sat), both cases
+  __setitem__@slice without `self._check(obj.id)`                                         slice_duplicate_id: no feasible path, inv-preserve.4/.5 (sat)
+  __setitem__@slice `finally: pass` (no _generate_index)                                  duplicate: post (sat); unique: post.2 / post.3 unknown
+  __setitem__@slice `list.__setitem__(self, i, y)` moved before the loop                  setslice/new-ids-distinct (sat), inv-init
+  __setslice__ `slice(i, j)` -> `slice(j, i)`;  -> `slice(i, j + 1)`                      new_unique_ids post.4-.7 (unknown), both
 """
 import z3
 from .common import *  # noqa
@@ -86,7 +102,7 @@ RE_COMPILE = z3.Function("re_compile", Id, Ref)
 RE_FINDS = z3.Function("re_findall_nonempty", Ref, Id, B)
 
 MYKEYS = ("DictList.query", "DictList.list_attr", "DictList.__dir__", "DictList.__reduce__", "DictList.__getstate__",
-          "DictList.__setslice__")
+          "DictList.__setslice__", "DictList.__setitem__@slice")
 
 
 def _mine(eng):
@@ -103,6 +119,8 @@ def _getattr(eng, st, v, name):
         return None
     if isinstance(v, VConc) and v.py == ("module", "re") and name == "compile":
         return [("ok", st, VFunc("abstract", "re.compile"))]
+    if isinstance(v, VClass) and v.name == "list" and name == "__setitem__" and eng.cur_contract.key == "DictList.__setitem__@slice":
+        return [("ok", st, VFunc("abstract", "list.__setitem__"))]
     if isinstance(v, VRef) and v.cls == "Pattern" and name == "findall":
         return [("ok", st, VFunc("bound", v, name))]
     return None
@@ -131,7 +149,53 @@ def _call_abstract(eng, st, f, pos, kw):
         n = fresh("dir_len", z3.IntSort())
         st2, l = alloc_list(st.assume(n >= 0), "id", base="dir", length=n)
         return [("ok", st2.setghost("dir_list", l).setghost("dir_len0", n), l)]
+    if f.a == "list.__setitem__" and len(pos) == 3 and not kw:
+        return _list_slice_assign(eng, st, *pos)
     raise Unsupported(f"abstract call {f.a}")
+
+
+def _splice(n, e, lo, hi, m, x, n2, e2, tag="sp"):
+    """ASSUMED (CPython, cross-checked natively): `l[lo:hi] = xs` for a simple slice (bounds already clipped to [0, n], a stop below
+    the start counts as the start): the elements before lo, then xs, then the elements from max(hi, lo) on"""
+    hi2 = z3.If(hi > lo, hi, lo)
+    j = qv(tag)
+    return [n2 == n - (hi2 - lo) + m,
+            FA([j], z3.Implies(z3.And(0 <= j, j < lo), e2[j] == e[j]), patterns=[e2[j]]),
+            FA([j], z3.Implies(z3.And(lo <= j, j < lo + m), e2[j] == x[j - lo]), patterns=[e2[j]]),
+            FA([j], z3.Implies(z3.And(lo + m <= j, j < n2), e2[j] == e[j - m + (hi2 - lo)]), patterns=[e2[j]])]
+
+
+def _list_slice_assign(eng, st, recv, idx, val):
+    from pyvc import builtins as Bi
+    if not isinstance(idx, VSlice):
+        return Bi.list_setitem(eng, st, recv, idx, val)
+    if not (isinstance(recv, VObj) and isinstance(val, VObj) and val.kind == "list" and val.oid != recv.oid):
+        raise Unsupported("list slice assignment from something else than another list")
+    n, e = L(st, recv)
+    m, x = L(st, val)
+    lo, hi = Bi.slice_bounds(eng, st, idx, n)
+    n2, e2 = fresh("spl_len", z3.IntSort()), fresh("spl_elem", e.sort())
+    st = st.assume(*_splice(n, e, lo, hi, m, x, n2, e2)).updobj(recv.oid, len=n2, elem=e2)
+    # call-site lemma (obliged, then assumed): the identifiers of the new list are pairwise different - what _generate_index needs
+    ida = eng.heap_arr(st, "_id")
+    i, j = qv("sdi"), qv("sdj")
+    D = FA([i, j], z3.Implies(z3.And(0 <= i, i < j, j < n2), ida[e2[i]] != ida[e2[j]]), patterns=[z3.MultiPattern(e2[i], e2[j])])
+    eng.oblige(st, D, "setslice/new-ids-distinct", kind="side")
+    return [("ok", st.assume(D), NONE)]
+
+
+def _setitem(eng, st, obj, idx, val):
+    """`self._dict[obj.id] = None`: the placeholder entry of the slice branch of __setitem__ - the key is present afterwards, its value
+    is unspecified (nothing reads it before _generate_index replaces the index)"""
+    if not _mine(eng) or eng.cur_contract.key != "DictList.__setitem__@slice":
+        return None
+    if isinstance(obj, VObj) and obj.kind == "dict" and isinstance(val, VNone) and isinstance(idx, VStr):
+        rec = st.objs[obj.oid]
+        if rec.get("lazy") or rec.get("kkind") != "id":
+            return None
+        return [("ok", st.updobj(obj.oid, dom=z3.Store(rec["dom"], idx.t, z3.BoolVal(True)),
+                                 val=z3.Store(rec["val"], idx.t, fresh("placeholder", z3.IntSort()))), NONE)]
+    return None
 
 
 def _getattr_dyn(eng, st, v, name, default):
@@ -167,6 +231,9 @@ def _call_method(eng, st, recv, name, pos, kw):
             r.t = RE_FINDS(recv.t, unwrap(s, "id"))
             return [("ok", st, r)]
         return None
+    if isinstance(recv, VObj) and recv.cls == "DictList" and name == "__setitem__" and len(pos) == 2 and isinstance(pos[0], VSlice) \
+            and eng.cur_contract.key == "DictList.__setslice__":
+        return eng.apply_contract(st, REG.get("DictList.__setitem__@slice"), [recv] + list(pos), kw)
     from pyvc.comprehension import VGen, gen_to_list
     if isinstance(recv, VObj) and recv.cls == "DictList" and name == "_extend_nocheck" and len(pos) == 1 and isinstance(pos[0], VGen):
         # `list.extend(self, <generator>)` consumes the generator once, in order: the PROVED contract of _extend_nocheck is applied to
@@ -218,7 +285,8 @@ def _filter_monotone(eng, st, src, m):
 
 
 HOOKS = {"getattr": _getattr, "global": _global, "call_abstract": _call_abstract, "getattr_dyn": _getattr_dyn,
-         "call_object": _call_object, "call_method": _call_method, "compare": _compare, "filter_monotone": _filter_monotone}
+         "call_object": _call_object, "call_method": _call_method, "compare": _compare, "filter_monotone": _filter_monotone,
+         "setitem": _setitem}
 
 
 # ================================================================ query
@@ -370,6 +438,79 @@ REG.add(Contract(M, "DictList.__reduce__", "C15", [SELF], [Case("any", ensures=_
                       "over exactly the elements of self in order); nothing written"))
 
 KEYS += ["DictList.list_attr", "DictList.__getstate__", "DictList.__reduce__"]
+
+
+# ================================================================ slice assignment (simple slices) and the legacy __setslice__
+YS = ("y", TList(C15.OBJ))
+
+
+def _ss_bounds(E):
+    from pyvc.builtins import slice_bounds
+    return slice_bounds(E.eng, E.s0, E["i"], L(E.s0, E["self"])[0])
+
+
+def _ss_ok(E):
+    """the new items carry pairwise different identifiers, none of which is in the index (NOT even that of a replaced element)"""
+    return C15._xs_ok(E, "y")
+
+
+def _ss_post(E):
+    lo, hi = _ss_bounds(E)
+    n0, e0 = L(E.s0, E["self"])
+    n1, e1 = L(E.s1, E["self"])
+    m, x = L(E.s0, E["y"])
+    return z3.And(WF(E, E.s1, E["self"]), *_splice(n0, e0, lo, hi, m, x, n1, e1, tag="pp"))
+
+
+def _ss_inv(E, Lc):
+    """placeholder loop: list untouched; index = old keys + the identifiers of the first t items, which are pairwise different and new"""
+    n0, e0 = L(E.s0, E["self"])
+    m, x = L(E.s0, E["y"])
+    dom0, _ = Dv(E.s0, E["self"])
+    dom, _ = Dv(Lc.st, E["self"])
+    idA = idarr(E, E.s0)
+    t = Lc.i
+    k, k2, j, j2, a, b, w = qv("sk", Id), qv("sk2", Id), qv("sj"), qv("sj2"), qv("sa"), qv("sb"), qv("sw")
+    return z3.And(
+        same_list(E, E.s0, Lc.st, E["self"]),
+        FA([k], z3.Implies(z3.Select(dom0, k), z3.Select(dom, k)), patterns=[z3.Select(dom0, k)]),
+        FA([j], z3.Implies(z3.And(0 <= j, j < t), z3.Select(dom, idA[x[j]])), patterns=[x[j]]),
+        FA([k2], z3.Implies(z3.And(z3.Select(dom, k2), z3.Not(z3.Select(dom0, k2))),
+                            z3.Exists([w], z3.And(0 <= w, w < t, idA[x[w]] == k2))), patterns=[z3.Select(dom, k2)]),
+        FA([j2], z3.Implies(z3.And(0 <= j2, j2 < t), z3.Not(z3.Select(dom0, idA[x[j2]]))), patterns=[x[j2]]),
+        FA([a, b], z3.Implies(z3.And(0 <= a, a < b, b < t), idA[x[a]] != idA[x[b]]), patterns=[z3.MultiPattern(x[a], x[b])]))
+
+
+def _ss_mod(E):
+    return dl_locs(E) + [havoc_index_attr(E)]
+
+
+def _ss_cases():
+    ok = Case("slice_new_unique_ids", requires=_ss_ok, ensures=_ss_post)
+    dup = Case("slice_duplicate_id", requires=lambda E: z3.Not(_ss_ok(E)), raises="ValueError", ensures=lambda E: unchanged_dl(E, E["self"]))
+    dup.modifies_on_raise = _ss_mod
+    for c in (ok, dup):
+        c.types = {"i": VSlice}
+    return [ok, dup]
+
+
+REG.add(Contract(M, "DictList.__setitem__", "C15", [SELF, ("i", TCustom(C15._slice_type)), YS], _ss_cases(),
+                 pre=lambda E: z3.And(WF(E, E.s0, E["self"]), L(E.s0, E["y"])[0] >= 0), modifies=_ss_mod,
+                 loops={0: LoopSpec(_ss_inv, lambda E, Lc: [("dict", dict_of(Lc.st, E["self"]))])}, key="DictList.__setitem__@slice",
+                 note="PROVED (second contract of __setitem__, for a simple slice i and a list y that is not self): see contracts/c15_query.py"))
+
+
+def _lss_env(E):
+    return Env(dict(E.a, i=VSlice(E["i"], E["j"], NONE)), E.s0, E.s1, res=E.res, eng=E.eng)
+
+
+REG.add(Contract(M, "DictList.__setslice__", "C15", [SELF, ("i", TInt()), ("j", TInt()), YS], [
+    Case("new_unique_ids", requires=lambda E: _ss_ok(E), ensures=lambda E: _ss_post(_lss_env(E))),
+    Case("duplicate_id", requires=lambda E: z3.Not(_ss_ok(E)), raises="ValueError", ensures=lambda E: unchanged_dl(E, E["self"])),
+], pre=lambda E: z3.And(WF(E, E.s0, E["self"]), L(E.s0, E["y"])[0] >= 0), modifies=_ss_mod, key="DictList.__setslice__",
+    note="PROVED over the proved slice contract of __setitem__ (dead code under Python 3: slicing syntax never calls it)"))
+
+KEYS += ["DictList.__setitem__@slice", "DictList.__setslice__"]
 
 
 # ================================================================ the pickle round trip, from the very contracts
